@@ -345,8 +345,10 @@ type witness struct {
 	Paths    [][]string `json:"paths,omitempty"`
 }
 
-const defectReplays = 80
+const defectReplays = 40
 
+// sigUnionNulls is the one open finding (F-C03-1); the others are fixed in
+// the repository and kept as regression signatures (a recurrence is a VIOLATION).
 const (
 	sigUnionNulls = "vector-path:union-with-nulls"
 	sigErrorNulls = "vector-path:error-under-nullable-record"
@@ -858,7 +860,7 @@ func run(c *core.Ctx) error {
 	c.Assume("type families of depth <= 3 (primitives incl. 8-bit and enum, records, nested records, arrays/sets/maps of records, unions, named and error types), sequences of <= 3-4 values (scaled x255 for the dictionary boundary), primitive tokens mapped to int64/float64/duration/time, string/bytes, uint8/int8/bool variants; compression codec and segment byte layout are exercised, not modelled")
 	c.Rule("cases = every value sequence up to MaxLen over each family's alphabet enumerated by TLC from VngEnc.tla (with the predicted column tree and the predicted results of the row reader, the vector path and each projection), instantiated with a seed-chosen variant of concrete types at scale 1 and, for a sample, at scale 255 (columns of 255/256/257 distinct values), plus boundary columns of 1,2,255,256,257,300 distinct values x null placement x nesting whose kind is predicted by the spec's rule table at DictMax=256; distinct = (family, sequence, scale) / boundary parameters; non-trivial = the sequence is non-empty")
 	e := &env{c: c, kinds: map[string]int{}, defect: map[string]int{}}
-	nrun := 6
+	nrun := 8
 	e.pool = make(chan *runner, nrun)
 	for i := 0; i < nrun; i++ {
 		r := &runner{}
@@ -890,7 +892,7 @@ func run(c *core.Ctx) error {
 	}
 	outs := make([]tout, len(families)+1)
 	var wg sync.WaitGroup
-	sem := make(chan struct{}, 4)
+	sem := make(chan struct{}, 7)
 	for i, f := range append(families, "rule") {
 		wg.Add(1)
 		go func(i int, f string) {
@@ -956,7 +958,7 @@ func run(c *core.Ctx) error {
 			})
 			total++
 			// a sample at the dictionary boundary scale
-			every := 9
+			every := 14
 			if !c.Quick() {
 				every = 16
 			}
@@ -1006,7 +1008,7 @@ func run(c *core.Ctx) error {
 			c.Inconclusive("vacuous: no real column of kind %q was produced", k)
 		}
 	}
-	for _, d := range []string{"union-nulls", "error-nulls", "enum"} {
+	for _, d := range []string{"union-nulls"} {
 		if e.defect[d] == 0 {
 			c.Inconclusive("vacuous: no case reaches the modelled defect %q", d)
 		}
